@@ -2,6 +2,7 @@ package main
 
 import (
 	"fmt"
+	"math"
 	"sort"
 	"strings"
 	"sync"
@@ -406,11 +407,78 @@ func chanScenario(capacity int, bound int) *vsched.Scenario {
 	}
 }
 
+// payloadScenario: what the queue carries is opaque to it. One producer offers the given values (nil, typed
+// nil pointers, zero values, equal neighbours, equal-but-distinct pointers ...) into a queue whose channel
+// holds one of them and whose overflow buffer takes the rest; the driver then takes them all back: the
+// accepted values come out exactly once, in order, as the very values that went in.
+func payloadScenario(label string, vals []interface{}, bound int) *vsched.Scenario {
+	fam := "payload"
+	return &vsched.Scenario{
+		Name:     "buffered-payload/" + label,
+		Bound:    bound,
+		TimerDev: true,
+		MaxSteps: 8000,
+		Horizon:  int64(400 * time.Millisecond),
+		Body: func() {
+			vsched.PoolRetain = 0
+			q := fpgo.NewBufferedChannelQueue[interface{}](1, len(vals), 100)
+			done := make(chan int, 1)
+			vsched.GoNamed("producer", func() {
+				for i, v := range vals {
+					vsched.Event("offer", i, errName(q.Offer(v)))
+				}
+				done <- 1
+			})
+			<-done
+			for i := 0; i < len(vals); i++ {
+				v, err := q.Take() // blocking: a value that never arrives shows as a blocked driver
+				if err != nil {
+					vsched.Event("take-failed", i, errName(err), q.Count())
+					break
+				}
+				vsched.Event("took", i, lib.Show(v))
+			}
+			vsched.Event("count", q.Count())
+		},
+		Check: func(r *vsched.Result) []vsched.Failure {
+			fs := e1.Basic("C07", fam, r, nil)
+			if len(r.Panics) > 0 || r.Cap != "" {
+				return fs
+			}
+			var want, got []string
+			for _, e := range r.Events {
+				switch e.Kind {
+				case "offer":
+					if e.Args[1].(string) == "nil" {
+						want = append(want, lib.Show(vals[e.Args[0].(int)]))
+					}
+				case "took":
+					got = append(got, e.Args[1].(string))
+				case "take-failed":
+					fs = append(fs, e1.Fail("C07|"+fam+"|stranded", "values %v: after %d removals TakeWithTimeout failed with %v while Count()=%v", label, e.Args[0], e.Args[1], e.Args[2]))
+				}
+			}
+			if len(fs) == 0 && fmt.Sprint(got) != fmt.Sprint(want) {
+				fs = append(fs, e1.Fail("C07|"+fam+"|wrong-values", "values %s: accepted %v, delivered %v", label, want, got))
+			}
+			if c := e1.Index(r, "count"); c >= 0 && len(fs) == 0 && r.Events[c].Args[0].(int) != 0 {
+				fs = append(fs, e1.Fail("C07|"+fam+"|count", "Count()=%v after everything was taken", r.Events[c].Args[0]))
+			}
+			return fs
+		},
+	}
+}
+
 func scenarios(tier string) []*vsched.Scenario {
 	var out []*vsched.Scenario
 	for c := 0; c <= 2; c++ {
 		out = append(out, chanScenario(c, 2))
 	}
+	out = append(out,
+		payloadScenario("nil-and-pointers", []interface{}{nil, (*int)(nil), lib.P1, lib.P2, nil}, 1),
+		payloadScenario("equal-neighbours", []interface{}{7, 7, 7, 7, 8, 8}, 1),
+		payloadScenario("zero-values", []interface{}{0, "", math.Copysign(0, -1), false, 0.0, struct{}{}}, 1),
+		payloadScenario("equal-structs-with-distinct-pointers", []interface{}{lib.Tagged{N: 1, P: lib.P1}, lib.Tagged{N: 1, P: lib.P2}, lib.Tagged{N: 1, P: lib.P1}, lib.ErrPayload}, 1))
 	P1 := [][]string{{"offer", "offer", "offer"}}
 	P1p := [][]string{{"put", "offer"}}
 	P2 := [][]string{{"offer", "offer"}, {"offer"}}
